@@ -13,6 +13,11 @@ Decides from the syntax tree / CFG of hailtop/utils/utils.py (nothing is run):
   R6 pairing   WithoutSemaphore releases exactly once on enter and re-acquires on *every* exit (the enclosing holder releases again)
   R7 holder    a semaphore handed to bounded_gather2* by code in this file is either a parameter (the caller's protocol) or a local
                semaphore of which the caller holds a slot; a freshly built, un-held semaphore is raised to N+1 by WithoutSemaphore
+  R8 flow      every parameter of a public wrapper (bounded_gather, bounded_gather2, any other bounded_gather* / caller-of-the-gatherers in
+               this file) reaches the machinery on every value-returning path: it is forwarded into the delegation call or tested on the path
+  R9 confined  the partial functions handed to a wrapper reach the machinery only: `*pfs` goes into a delegation call (or a length / truth
+               test); iterating, indexing or calling them, or asyncio.gather/wait/create_task/ensure_future in a wrapper, is a bypass of the
+               bound / cancel / await discipline that R1-R6 establish for the machinery
 Does not decide: schedules as such; with cancel_on_error=False the documented behaviour is that the remaining tasks keep running after
 the first error is raised; whether callers in other files hold a slot (thorough tier lists them as INFO).
 """
@@ -86,7 +91,8 @@ def _r1(ctx: Ctx, m: pf.Module) -> None:
             if isinstance(n, (ast.For, ast.AsyncFor)) and isinstance(n.iter, ast.Name) and n.iter.id == vararg and isinstance(n.target, ast.Name):
                 user.add(n.target.id)
         user -= {'self', sema}
-        calls = [c for c in ast.walk(outer) if isinstance(c, ast.Call) and isinstance(c.func, ast.Name) and c.func.id in user]
+        calls = [c for c in ast.walk(outer) if isinstance(c, ast.Call) and ((isinstance(c.func, ast.Name) and c.func.id in user) or (
+            vararg is not None and isinstance(c.func, ast.Subscript) and isinstance(c.func.value, ast.Name) and c.func.value.id == vararg))]
         ctx.need(calls, f'{qn}: no invocation of a user function found (idiom not recognised)')
         for c in calls:
             host = m.enclosing_func(c)
@@ -297,6 +303,29 @@ def _r4(ctx: Ctx, m: pf.Module, tasks_name: Dict[str, str]) -> None:
 
     # (b) cancel_on_error finally
     gr = m.func(GR)
+    # (c) the raise-exceptions wrapper lets the failure of a partial function out of its task
+    for wfn in _nested_defs(gr):
+        ups = {a.arg for a in wfn.args.args}
+        for c in ast.walk(wfn):
+            if not (isinstance(c, ast.Call) and isinstance(c.func, ast.Name) and c.func.id in ups):
+                continue
+            cons = f'{F}::{GR}.{wfn.name}::propagates the failure'
+            swallow = None
+            cur: ast.AST = c
+            parents = m.parents()
+            while cur is not wfn:
+                p = parents[cur]
+                if isinstance(p, ast.Try) and any(cur is s for s in p.body):
+                    for h in p.handlers:
+                        hc = _sub_cfg(h.body)
+                        if hc.path_avoiding(hc.entry, lambda n: n is hc.exit, lambda n: n.kind == 'raise') is not None or \
+                                any(isinstance(r, ast.Return) for s2 in h.body for r in ast.walk(s2)):
+                            swallow = h
+                cur = p
+            ctx.check(swallow is None, 'R4', cons,
+                      f'`except {pf.nsrc(swallow.type) if swallow is not None and swallow.type is not None else ""}` around `{pf.nsrc(c)}` can complete without re-raising: the task '
+                      f'finishes normally, asyncio.gather sees no failure, and bounded_gather2(..., return_exceptions=False) returns a placeholder instead of raising the first exception',
+                      m.path, swallow.lineno if swallow is not None else c.lineno)
     tname = tasks_name[GR]
     tries = [t for t in _own_nodes(gr) if isinstance(t, ast.Try) and t.finalbody]
     consf = f'{F}::{GR}::finally'
@@ -622,7 +651,9 @@ def _holder_verdict(m: pf.Module, c: ast.Call, fn: Optional[pf.FuncDef]) -> Tupl
 
 def _r7(ctx: Ctx, m: pf.Module) -> None:
     for c, fn, q in _sema_sites(m, GATHERERS):
-        cons = f'{F}::{q}::{pf.dotted(c.func)}({pf.nsrc(c.args[0])}, ...)'
+        a0 = pf.expand_locals(fn, c.args[0]) if fn is not None and isinstance(c.args[0], ast.Name) and len(pf.assignments(fn).get(c.args[0].id, [])) == 1 \
+            and c.args[0].id not in [a.arg for a in fn.args.args] else c.args[0]
+        cons = f'{F}::{q}::{pf.dotted(c.func)}({pf.nsrc(a0)}, ...)'
         kind, why = _holder_verdict(m, c, fn)
         if kind == 'fresh':
             ctx.bad('R7', cons, f'the semaphore handed to {pf.dotted(c.func)} is un-held ({why}): {WS}.__aenter__ releases a slot the caller never acquired, so the value becomes '
@@ -631,6 +662,196 @@ def _r7(ctx: Ctx, m: pf.Module) -> None:
             ctx.ok('R7', cons, why)
         else:
             raise AnalysisError(f'{cons}: cannot decide whether the caller holds a slot ({why})')
+
+
+# ------------------------------------------------------------------------------------------------
+# R8 / R9: the public entry points reach the started work only through the analysed machinery
+# ------------------------------------------------------------------------------------------------
+
+MACHINERY = (GR, GE)
+_SPAWNERS = ('asyncio.gather', 'asyncio.wait', 'asyncio.create_task', 'asyncio.ensure_future', 'asyncio.as_completed', 'asyncio.wait_for',
+             'asyncio.TaskGroup', 'asyncio.shield', 'asyncio.get_event_loop().create_task', 'asyncio.get_running_loop().create_task')
+
+
+def _family(m: pf.Module) -> Set[str]:
+    """Names of the gather family defined at module level of the file: the gatherers and every bounded_gather* function."""
+    out = set(GATHERERS) | {G1}
+    for st in m.tree.body:
+        if isinstance(st, (ast.FunctionDef, ast.AsyncFunctionDef)) and st.name.startswith('bounded_gather'):
+            out.add(st.name)
+    return out
+
+
+def _wrappers(m: pf.Module) -> List[pf.FuncDef]:
+    """Module-level functions that are entry points but not the analysed machinery: every bounded_gather* function other than GR / GE
+    and every other module-level function that calls a member of the family with a starred argument (it forwards partial functions)."""
+    fam = _family(m)
+    out = []
+    for st in m.tree.body:
+        if not isinstance(st, (ast.FunctionDef, ast.AsyncFunctionDef)) or st.name in MACHINERY:
+            continue
+        if st.name in fam:
+            out.append(st)
+            continue
+        if st.args.vararg is not None and any(isinstance(c, ast.Call) and pf.dotted(c.func) in fam and any(isinstance(a, ast.Starred) for a in c.args)
+                                              for c in ast.walk(st)):
+            out.append(st)
+    return out
+
+
+def _delegations(fn: pf.FuncDef, fam: Set[str]) -> List[ast.Call]:
+    return [c for c in ast.walk(fn) if isinstance(c, ast.Call) and pf.dotted(c.func) in fam and pf.dotted(c.func) != fn.name]
+
+
+def _in_test_position(par: Dict[ast.AST, ast.AST], n: ast.AST) -> bool:
+    """Is the expression node `n` part of the test of an if / while / conditional expression / assert (and not of a body)?"""
+    cur = n
+    while cur in par:
+        p = par[cur]
+        if isinstance(p, (ast.If, ast.While, ast.IfExp, ast.Assert)):
+            return p.test is cur
+        if isinstance(p, ast.stmt):
+            return False
+        cur = p
+    return False
+
+
+def _empty_guard(cfg: pf.CFG, node: pf.Node, vararg: Optional[str]) -> bool:
+    """Every path to `node` takes an edge on which *pfs is known to be empty."""
+    if vararg is None:
+        return False
+    texts = (vararg, f'len({vararg}) == 0', f'len({vararg}) > 0', f'len({vararg}) != 0', f'len({vararg})', f'len({vararg}) >= 1', f'len({vararg}) < 1')
+
+    def empty_edge(a: pf.Node, lab: str) -> bool:
+        if a.kind != 'test' or lab not in ('T', 'F'):
+            return False
+        for t in texts:
+            empty_when = t in (f'len({vararg}) == 0', f'len({vararg}) < 1')
+            if af.implied_on_edge(a.ast, lab, t, empty_when):
+                return True
+        return False
+    return cfg.path_avoiding(cfg.entry, lambda n: n is node, lambda n: False, edge_ok=lambda a, b, lab: not empty_edge(a, lab)) is None
+
+
+def _r8_r9(ctx: Ctx, m: pf.Module) -> None:
+    fam = _family(m)
+    ws = _wrappers(m)
+    ctx.need({G1, G2} <= {w.name for w in ws}, f'{G1} / {G2} are no longer module-level wrappers')
+    par = m.parents()
+    declined: List[str] = []
+    for fn in ws:
+        qn = fn.name
+        cfg = pf.cfg(fn)
+        reach = cfg.reachable_from(cfg.entry)
+        vararg = fn.args.vararg.arg if fn.args.vararg else None
+        params = [a.arg for a in list(fn.args.posonlyargs) + list(fn.args.args) + list(fn.args.kwonlyargs)]
+        dels = _delegations(fn, fam)
+        rets = [n for n in cfg.nodes if n.kind == 'return' and n.id in reach]
+        ctx.need(rets, f'{qn}: no return')
+
+        # ---- R9: what happens to the partial functions
+        bypass: List[Tuple[ast.AST, str]] = []
+        if vararg is not None:
+            for u in _own_and_nested(fn):
+                if isinstance(u, ast.Name) and u.id == vararg and isinstance(u.ctx, ast.Load):
+                    p = par.get(u)
+                    if isinstance(p, ast.Starred) and isinstance(par.get(p), ast.Call) and par[p] in dels and p in par[p].args:
+                        continue
+                    if _in_test_position(par, u):
+                        continue
+                    bypass.append((u, f'`{pf.nsrc(_stmt_of(par, u))}` uses the partial functions `{vararg}` outside a delegation'))
+        for c in _own_and_nested(fn):
+            if isinstance(c, ast.Call) and (pf.dotted(c.func) in _SPAWNERS or (pf.dotted(c.func) or '').endswith('.create_task')):
+                bypass.append((c, f'`{pf.nsrc(c)}` starts / awaits work in the wrapper itself'))
+        cons9 = f'{F}::{qn}::partial functions reach only the machinery'
+        if not bypass:
+            ctx.need(dels, f'{qn}: neither delegates to the gather machinery nor touches its partial functions (idiom not recognised)')
+            ctx.ok('R9', cons9, f'{len(dels)} delegation(s): {sorted({pf.dotted(c.func) for c in dels})}')
+        else:
+            node, what = bypass[0]
+            st = _stmt_of(par, node)
+            host = [n for n in cfg.nodes if n.ast is not None and n.id in reach and (n.ast is st or any(x is node for x in pf.node_exprs(n) for x in ast.walk(x)))]
+            cancels = any(isinstance(c, ast.Call) and isinstance(c.func, ast.Attribute) and c.func.attr == 'cancel' for c in ast.walk(fn))
+            flag = 'cancel_on_error'
+            decided = False
+            # a path on which the number of partial functions is compared with a literal (`len(pfs) == 1`) may have nothing left to cancel: not decided
+            def sized(t: pf.Node) -> bool:
+                return t.kind == 'test' and any(isinstance(x, ast.Compare) and pf.nsrc(x.left) == f'len({vararg})' and all(isinstance(k, ast.Constant) for k in x.comparators)
+                                                for x in ast.walk(t.ast))
+            size_guarded = bool(host) and cfg.path_avoiding(cfg.entry, lambda n: any(n is h for h in host), sized) is None
+            if flag in params and host and not cancels and not size_guarded:
+                def flag_false(a: pf.Node, lab: str) -> bool:
+                    return a.kind == 'test' and lab in ('T', 'F') and af.implied_on_edge(a.ast, lab, flag, False)
+                w = cfg.path_avoiding(cfg.entry, lambda n: any(n is h for h in host), lambda n: False, edge_ok=lambda a, b, lab: not flag_false(a, lab))
+                if w is not None:
+                    conds = [f'{"" if lab == "T" else "not "}({pf.nsrc(a.ast)})' for a, lab in _path_tests(w)]
+                    ctx.bad('R9', f'{F}::{qn}::{pf.nsrc(st)}',
+                            f'{what}: this path ({" and ".join(conds) or "unconditional"}) starts the partial functions without the analysed machinery '
+                            f'({GR} / {GE}), and `{flag}` may be true on it while nothing on it cancels: e.g. {qn}(pfA, pfB, pfC, {flag}=True) with pfB raising at once - '
+                            f'the error propagates to the caller while pfA and pfC keep running un-cancelled and un-awaited', m.path, st.lineno)
+                    decided = True
+            if not decided:
+                declined.append(f'{qn}: {what}; the obligations of the contract on that path (bound, order, error propagation, cancellation, awaiting) '
+                                f'are not decided for code outside {GR} / {GE}')
+
+        # ---- R8: every parameter reaches the machinery on every value-returning path
+        for p in params:
+            cons8 = f'{F}::{qn}::parameter {p} reaches the machinery'
+            tests_p = [t for t in cfg.nodes if t.kind == 'test' and af.mentions(t.ast, p)]
+            ignored = None
+            for r in rets:
+                rv = r.ast.value  # type: ignore[union-attr]
+                if rv is None:
+                    continue
+                rcalls = [c for c in ast.walk(rv) if isinstance(c, ast.Call) and pf.dotted(c.func) in fam]
+                fwd = False
+                for c in rcalls:
+                    ce = pf.expand_locals(fn, c)
+                    args = list(ce.args) + [k.value for k in ce.keywords]  # type: ignore[attr-defined]
+                    if any(isinstance(x, ast.Name) and x.id == p for a in args for x in ast.walk(a)):
+                        fwd = True
+                if fwd:
+                    continue
+                w = cfg.path_avoiding(cfg.entry, lambda n, r=r: n is r, lambda n: any(n is t for t in tests_p))
+                if w is None:
+                    continue
+                if not rcalls and _empty_guard(cfg, r, vararg) and isinstance(rv, (ast.List, ast.Tuple)) and not rv.elts:
+                    continue  # nothing to run: `if not pfs: return []`
+                ignored = (r, w)
+                break
+            if ignored is None:
+                ctx.ok('R8', cons8, 'forwarded or tested on every value-returning path')
+            else:
+                r, w = ignored
+                conds = [f'{"" if lab == "T" else "not "}({pf.nsrc(a.ast)})' for a, lab in _path_tests(w)]
+                ctx.bad('R8', cons8, f'`{r.text()}` is reached on the path ({" and ".join(conds) or "unconditional"}) without `{p}` being tested or handed to '
+                        f'the gather machinery: the caller\'s `{p}` is ignored on that path'
+                        + (' - with cancel_on_error=True the first failure does not cancel the remaining partial functions' if p == 'cancel_on_error' else '')
+                        + (' - the parallelism bound is not applied' if p in ('parallelism', 'sema') else '')
+                        + (' - exceptions are not returned in place' if p == 'return_exceptions' else ''), m.path, r.lineno)
+    if declined:
+        raise AnalysisError('; '.join(declined))
+
+
+def _own_and_nested(fn: pf.FuncDef):
+    return ast.walk(fn)
+
+
+def _stmt_of(par: Dict[ast.AST, ast.AST], n: ast.AST) -> ast.AST:
+    cur = n
+    while cur in par and not isinstance(cur, ast.stmt):
+        cur = par[cur]
+    return cur
+
+
+def _path_tests(path: Sequence[pf.Node]) -> List[Tuple[pf.Node, str]]:
+    out = []
+    for a, b in zip(path, path[1:]):
+        if a.kind == 'test':
+            labs = [lab for mnode, lab in a.succ if mnode is b and lab in ('T', 'F')]
+            if labs:
+                out.append((a, labs[0]))
+    return out
 
 
 def _thorough_callers(ctx: Ctx) -> None:
@@ -654,10 +875,12 @@ def run(ctx: Ctx) -> None:
     ctx.rule('R1', 'every invocation of a user partial function is inside `async with <sema>`', 3)
     ctx.rule('R2', 'every parent await of gather/wait/_done_event.wait is inside `async with WithoutSemaphore(<sema>)`', 6)
     ctx.rule('R3', 'tasks built by an order-preserving comprehension over *pfs; results returned by gather(*tasks); wrappers forward *pfs and flags', 9)
-    ctx.rule('R4', 'return_exceptions: catch-all wrapper returning pairs; cancel_on_error: on error every unfinished task is cancelled (no early exit) and all are awaited', 7)
+    ctx.rule('R4', 'return_exceptions: catch-all wrapper returning pairs; raise variant propagates; cancel_on_error: on error every unfinished task is cancelled (no early exit) and all are awaited', 8)
     ctx.rule('R5', 'OnlineBoundedGather2: register/clear in call, deregister/signal in run_and_cleanup, first exception kept, __aexit__ leaves only when nothing is pending; shutdown awaits what it cancels', 14)
     ctx.rule('R6', 'WithoutSemaphore releases once on enter and re-acquires on every exit', 2)
     ctx.rule('R7', 'a semaphore handed to bounded_gather2* from this file is a parameter or held by the caller', 3)
+    ctx.rule('R8', 'every parameter of a public gather wrapper is forwarded to the machinery or tested on every value-returning path', 6)
+    ctx.rule('R9', 'the partial functions handed to a public wrapper reach only the analysed machinery (no direct gather/wait/create_task/call in a wrapper)', 2)
     ctx.assume('asyncio.Semaphore.release() is unbounded; asyncio.gather propagates the first exception as soon as it happens and does not cancel the other awaitables')
     ctx.assume('callers of bounded_gather2* / OnlineBoundedGather2 that receive a semaphore hold one slot of it (the protocol WithoutSemaphore implements)')
     m = pf.load(F)
@@ -669,6 +892,7 @@ def run(ctx: Ctx) -> None:
     _r5(ctx, m)
     _r6(ctx, m)
     _r7(ctx, m)
+    _r8_r9(ctx, m)
     ctx.unit('functions', 12)
     if ctx.tier == 'thorough':
         _thorough_callers(ctx)
